@@ -84,6 +84,36 @@ theorem c18_pool_needs_reset_witness :
 /-- **every mvcc message survives encode / decode**: KeyValue, RequestOp (range / put / delete arm
 and the empty oneof), Compare (with and without the oneof value), Txn … -/
 theorem c18_keyvalue_message (kv : KeyValue) : KeyValue.decode kv.enc = some kv := KeyValue.decode_enc kv
+
+/-- **recycled receivers**: a batch element decoded into a retained object that went through
+`Reset()` is the original, whatever the object held before … -/
+theorem c18_recycled_keyvalue (old kv : KeyValue) : KeyValue.decodeInto old.reset kv.enc = some kv :=
+  KeyValue.decode_enc kv
+
+/-- … and so is a whole batch decoded into the retained objects of a recycled `Command`, whatever
+their number and former content (more, fewer or as many as the message has elements) -/
+theorem c18_recycled_batch (ret kvs : List KeyValue) :
+    batchInto (ret.map KeyValue.reset) (kvs.map KeyValue.enc) = some kvs := by
+  induction kvs generalizing ret with
+  | nil => cases ret <;> rfl
+  | cons kv kvs ih =>
+    cases ret with
+    | nil =>
+      have := ih []
+      simp only [List.map_nil] at this
+      simp [batchInto, KeyValue.decode_enc, this]
+    | cons r ret =>
+      simp only [List.map_cons, batchInto, c18_recycled_keyvalue, ih ret]
+      rfl
+
+/-- the `Reset()` is needed (what seeded change C18-g removed): a retained object that still holds a
+value gives it to every later element whose own value is empty - proto3 does not put an empty value
+on the wire, so nothing overwrites it -/
+theorem c18_recycled_needs_reset :
+    ∃ old kv : KeyValue, KeyValue.decodeInto old kv.enc ≠ some kv :=
+  ⟨⟨[], 0, 0, [1]⟩, ⟨[], 0, 0, []⟩, by
+    simp [KeyValue.decodeInto, KeyValue.enc, bytesField, varintField, fieldsOf, decFields,
+      KeyValue.ofFieldsInto]⟩
 theorem c18_requestop_message (o : RequestOp) : RequestOp.decode o.enc = some o := RequestOp.decode_enc o
 theorem c18_compare_message (c : Compare) : Compare.decode c.enc = some c := Compare.decode_enc c
 theorem c18_txn_message (t : Txn) : Txn.decode t.enc = some t := Txn.decode_enc t
